@@ -42,6 +42,10 @@ def clone(n):
     return new
 
 
+def norm_name(x):
+    return x.id if isinstance(x, ast.Name) else None
+
+
 def _own_nodes(fn: ast.AST):
     """nodes of a function body without the bodies of nested functions / classes / lambdas"""
     stack = list(fn.body) if isinstance(fn, (ast.FunctionDef, ast.AsyncFunctionDef)) else [fn]
@@ -149,11 +153,48 @@ def eliminate_returns(stmts: List[ast.stmt], on_return) -> List[ast.stmt]:
                 out.append(new)
                 return out
             raise NotInlinable("return in a branch that does not end the function")
+        if isinstance(st, (ast.For, ast.While)) and _has_return([st]) and i == len(stmts) - 1 and not st.orelse:
+            # a loop that is the last thing the function does: `return X` inside it is `<on_return(X)>; break`
+            # (this list is only ever the function body or a branch that ends the function, so nothing follows the loop)
+            new = clone(st)
+            new.body = _returns_to_breaks(new.body, on_return)
+            out.append(new)
+            return out
         if isinstance(st, (ast.For, ast.While, ast.AsyncFor, ast.Try, ast.With, ast.AsyncWith)) and _has_return([st]):
             raise NotInlinable("return inside a loop / try / with")
         if hasattr(ast, "Match") and isinstance(st, getattr(ast, "Match")) and _has_return([st]):
             raise NotInlinable("return inside match")
         out.append(st)
+    return out
+
+
+def _returns_to_breaks(stmts: List[ast.stmt], on_return) -> List[ast.stmt]:
+    """inside the body of a tail-position loop: every `return X` becomes on_return(X) + `break`.  A return inside a nested
+    loop would need a second jump: NotInlinable."""
+    out: List[ast.stmt] = []
+    for st in stmts:
+        if isinstance(st, ast.Return):
+            brk = ast.Break()
+            ast.copy_location(brk, st)
+            out.extend(on_return(st))
+            out.append(brk)
+            return out
+        if isinstance(st, (ast.For, ast.While, ast.AsyncFor)) and _has_return([st]):
+            raise NotInlinable("return inside a nested loop")
+        if hasattr(ast, "Match") and isinstance(st, getattr(ast, "Match")) and _has_return([st]):
+            raise NotInlinable("return inside match")
+        if isinstance(st, (ast.FunctionDef, ast.AsyncFunctionDef, ast.ClassDef)):
+            out.append(st)
+            continue
+        new = st
+        if _has_return([st]):
+            new = clone(st)
+            for fld in ("body", "orelse", "finalbody"):
+                if getattr(new, fld, None):
+                    setattr(new, fld, _returns_to_breaks(getattr(new, fld), on_return))
+            for h in getattr(new, "handlers", []) or []:
+                h.body = _returns_to_breaks(h.body, on_return)
+        out.append(new)
     return out
 
 
@@ -207,8 +248,13 @@ def _first_evaluated_call(st: ast.stmt):
     if isinstance(st, ast.Expr):
         return down(st.value)
     if isinstance(st, (ast.Assign, ast.AnnAssign, ast.AugAssign)) and st.value is not None:
-        if isinstance(st, ast.Assign) and not all(isinstance(t, (ast.Name, ast.Tuple, ast.List)) for t in st.targets):
-            return None  # the target (attribute / subscript) is evaluated after the value, but keep it simple
+        def plain(t):
+            while isinstance(t, ast.Attribute):
+                t = t.value
+            return isinstance(t, (ast.Name, ast.Tuple, ast.List))
+
+        if isinstance(st, ast.Assign) and not all(plain(t) for t in st.targets):
+            return None  # a subscript / call in the target is evaluated after the value, but keep it simple
         return down(st.value)
     if isinstance(st, ast.Return) and st.value is not None:
         return down(st.value)
@@ -376,6 +422,15 @@ class Inliner:
             in_args = {x.id for a_ in call.args for x in ast.walk(a_) if isinstance(x, ast.Name)} | {x.id for k_ in call.keywords for x in ast.walk(k_.value) if isinstance(x, ast.Name)}
             if L in stored and L not in binding and T not in in_args and (L == T or T not in _all_names(gn)):
                 mapping[L] = T
+        # (2b) `T1, T2 = helper(...)` where the helper ends in `return L1, L2` of distinct locals: each Li is Ti
+        if isinstance(st, ast.Assign) and st.value is expr and len(st.targets) == 1 and isinstance(st.targets[0], ast.Tuple) and body and isinstance(body[-1], ast.Return) and isinstance(body[-1].value, ast.Tuple) and not _has_return(body[:-1]):
+            Ls, Ts = body[-1].value.elts, st.targets[0].elts
+            if len(Ls) == len(Ts) and all(isinstance(x, ast.Name) for x in list(Ls) + list(Ts)) and len({x.id for x in Ls}) == len(Ls) and len({x.id for x in Ts}) == len(Ts):
+                in_args = {x.id for a_ in call.args for x in ast.walk(a_) if isinstance(x, ast.Name)} | {x.id for k_ in call.keywords for x in ast.walk(k_.value) if isinstance(x, ast.Name)}
+                names_g = _all_names(gn)
+                if all(L.id in stored and L.id not in binding and T.id not in in_args and (L.id == T.id or T.id not in names_g) for L, T in zip(Ls, Ts)):
+                    for L, T in zip(Ls, Ts):
+                        mapping[L.id] = T.id
         for p, v in binding.items():
             same = isinstance(v, ast.Name) and v.id == p and p not in stored
             if same:
@@ -434,28 +489,53 @@ class Inliner:
             new_st = st  # statement objects of the caller tree are fresh (the tree was re-parsed)
             if isinstance(st, ast.Assign) and st.value is expr and len(st.targets) == 1 and isinstance(st.targets[0], ast.Name) and isinstance(val, ast.Name) and val.id == st.targets[0].id:
                 out = pro + body[:-1]  # coalesced: the helper's result variable is the target itself
+            elif isinstance(st, ast.Assign) and st.value is expr and len(st.targets) == 1 and isinstance(st.targets[0], ast.Tuple) and isinstance(val, ast.Tuple) and [norm_name(x) for x in val.elts] == [norm_name(x) for x in st.targets[0].elts] and None not in [norm_name(x) for x in val.elts]:
+                out = pro + body[:-1]  # coalesced tuple: `a, b = a, b`
             else:
                 if not _replace(new_st, expr, val):
                     raise NotInlinable("call not found in statement")
                 out = pro + body[:-1] + [new_st]
         else:
 
+            # `T = helper(...)` with T a name / attribute of a name the helper does not re-bind: the returns assign T directly
+            direct = None
+            if isinstance(st, ast.Assign) and st.value is expr and len(st.targets) == 1:
+                t = st.targets[0]
+                root = t
+                while isinstance(root, ast.Attribute):
+                    root = root.value
+                if isinstance(root, ast.Name) and isinstance(t, (ast.Name, ast.Attribute)):
+                    rebound = {x.id for s_ in body for x in _stmt_nodes(s_) if isinstance(x, ast.Name) and isinstance(x.ctx, (ast.Store, ast.Del))}
+                    reads_t = isinstance(t, ast.Name) and any(isinstance(x, ast.Name) and x.id == t.id for s_ in body for x in _stmt_nodes(s_))
+                    if root.id not in rebound and not reads_t:
+                        direct = t
+
             def on_ret(r):
                 v = r.value if r.value is not None else ast.Constant(value=None)
-                asg = ast.Assign(targets=[ast.Name(id=res, ctx=ast.Store())], value=v)
+                tgt = clone(direct) if direct is not None else ast.Name(id=res, ctx=ast.Store())
+                asg = ast.Assign(targets=[tgt], value=v)
                 ast.copy_location(asg, r)
+                ast.fix_missing_locations(asg)
                 return [asg]
 
             new_body = eliminate_returns(body, on_ret)
-            if not _always_assigns(new_body, res):
-                init = ast.Assign(targets=[ast.Name(id=res, ctx=ast.Store())], value=ast.Constant(value=None))
-                ast.copy_location(init, st)
-                new_body = [init] + new_body
-            nm = ast.Name(id=res, ctx=ast.Load())
-            ast.copy_location(nm, expr)
-            if not _replace(st, expr, nm):
-                raise NotInlinable("call not found in statement")
-            out = pro + new_body + [st]
+            if direct is not None:
+                if not _always_assigns(new_body, ast.dump(direct)):
+                    # the helper may fall off its end (implicit None): keep the result variable instead
+                    direct = None
+                    new_body = eliminate_returns(body, on_ret)
+            if direct is not None:
+                out = pro + new_body
+            else:
+                if not _always_assigns(new_body, res):
+                    init = ast.Assign(targets=[ast.Name(id=res, ctx=ast.Store())], value=ast.Constant(value=None))
+                    ast.copy_location(init, st)
+                    new_body = [init] + new_body
+                nm = ast.Name(id=res, ctx=ast.Load())
+                ast.copy_location(nm, expr)
+                if not _replace(st, expr, nm):
+                    raise NotInlinable("call not found in statement")
+                out = pro + new_body + [st]
         self.inlined.append(f"{g.key} into {f.key}")
         for s in out:
             ast.fix_missing_locations(s)
@@ -516,15 +596,41 @@ def _is_tail(fn_node, st) -> bool:
 
 
 def _always_assigns(stmts, name) -> bool:
+    """every normal exit of the statement list ends with an assignment to `name` (a variable name, or the ast.dump of a
+    target expression)"""
+
+    def is_t(t):
+        return (isinstance(t, ast.Name) and t.id == name) or ast.dump(t) == name
+
     if not stmts:
         return False
     last = stmts[-1]
-    if isinstance(last, ast.Assign) and any(isinstance(t, ast.Name) and t.id == name for t in last.targets):
+    if isinstance(last, ast.Assign) and any(is_t(t) for t in last.targets):
         return True
     if isinstance(last, ast.Raise):
         return True
     if isinstance(last, ast.If):
         return bool(last.orelse) and _always_assigns(last.body, name) and _always_assigns(last.orelse, name)
+    if isinstance(last, ast.While) and isinstance(last.test, ast.Constant) and last.test.value is True and not last.orelse:
+        # `while True:` is left only through its breaks: each must directly follow the assignment
+        def breaks_ok(body) -> bool:
+            for i, st in enumerate(body):
+                if isinstance(st, ast.Break):
+                    prev = body[i - 1] if i else None
+                    if not (isinstance(prev, ast.Assign) and any(is_t(t) for t in prev.targets)):
+                        return False
+                elif isinstance(st, (ast.For, ast.While, ast.AsyncFor, ast.FunctionDef, ast.AsyncFunctionDef, ast.ClassDef)):
+                    continue  # a break in there leaves that loop, not this one
+                else:
+                    for fld in ("body", "orelse", "finalbody"):
+                        if getattr(st, fld, None) and not breaks_ok(getattr(st, fld)):
+                            return False
+                    for h in getattr(st, "handlers", []) or []:
+                        if not breaks_ok(h.body):
+                            return False
+            return True
+
+        return breaks_ok(last.body)
     return False
 
 
